@@ -427,6 +427,118 @@ def session_envelope(ctx):
     ctx.log('session envelope: %d answers of the real KmipSession parsed (%d problems)' % (n, bad))
 
 
+def _walk_items(bs, pos=0, end=None, out=None):
+    """(offset, tag, type, length) of every item of a well-formed encoding, depth first."""
+    out = [] if out is None else out
+    end = len(bs) if end is None else end
+    while pos + 8 <= end:
+        tag, typ, ln = int.from_bytes(bs[pos:pos + 3], 'big'), bs[pos + 3], int.from_bytes(bs[pos + 4:pos + 8], 'big')
+        out.append((pos, tag, typ, ln))
+        if typ == 1:
+            _walk_items(bs, pos + 8, pos + 8 + ln, out)
+            pos += 8 + ln
+        else:
+            pos += 8 + ln + (-ln) % 8
+    return out
+
+
+def _noncanonical_variants(req):
+    """Requests that differ from a well-formed request in ONE item header or padding byte and keep every enclosing
+    length (and the size of the frame) as it is: declared length 8 on a 4-byte type and 4 on an 8-byte type, the type
+    byte exchanged for another of the same width, a length that reaches into the padding, padding that is not zero."""
+    out = []
+    for pos, tag, typ, ln in _walk_items(req):
+        def put(label, at, byts):
+            m = bytearray(req)
+            m[at:at + len(byts)] = byts
+            out.append(('%06x@%d:%s' % (tag, pos, label), bytes(m)))
+        if typ in (2, 5, 10) and ln == 4:
+            put('length-8', pos + 4, (8).to_bytes(4, 'big'))
+            put('padding-nonzero', pos + 12, b'\x00\x00\x00\x01')
+            for t2 in (2, 5, 10):
+                if t2 != typ:
+                    put('type-%d' % t2, pos + 3, bytes([t2]))
+        elif typ in (3, 6, 9) and ln == 8:
+            put('length-4', pos + 4, (4).to_bytes(4, 'big'))
+            for t2 in (3, 6, 9):
+                if t2 != typ:
+                    put('type-%d' % t2, pos + 3, bytes([t2]))
+        elif typ in (7, 8):
+            if ln % 8:
+                put('length+1', pos + 4, (ln + 1).to_bytes(4, 'big'))
+                put('padding-nonzero', pos + 8 + ln, b'\x01')
+            if ln:
+                put('length-1', pos + 4, (ln - 1).to_bytes(4, 'big'))
+            put('type-%d' % (15 - typ), pos + 3, bytes([15 - typ]))
+    return out
+
+
+def noncanonical_requests(ctx):
+    """Whatever the server answers to a request that is NOT canonical must itself be canonical: the server echoes
+    objects it decoded from the request (the protocol version of the header, identifiers, names), and a decoder that
+    tolerates a non-canonical item must not hand its form on to the encoder.  One connection per version through the
+    real KmipSession: variants of ordinary requests (see _noncanonical_variants), all items of the header and a seeded
+    sample of the others, then an ordinary request; every answer is parsed by the independent parser."""
+    import kdrv
+    import sessdrv
+    import ttlvparse
+    from kmip.core import enums
+    rng = ctx.subrng('noncanonical-requests')
+    A, M = enums.CryptographicAlgorithm, enums.CryptographicUsageMask
+    per_base = 14 if ctx.tier == 'quick' else 120
+    n = bad = accepted = 0
+    kinds = {}
+    for version in kdrv.VERSIONS:
+        eng = kdrv.Engine(workdir=ctx.work)
+        try:
+            proxy = sessdrv.EngineProxy(eng)
+            ts = 1600000000
+            bases = [('create', [kdrv.create(A.AES, 256, (M.ENCRYPT, M.DECRYPT))]),
+                     ('get-missing', [kdrv.get('no-such-object')]),
+                     ('query', [kdrv.query()])]
+            scen = []
+            for bname, items in bases:
+                req = sessdrv.encode_request(eng.build(items, version=version), version)
+                vs = _noncanonical_variants(req)
+                hdr_end = 8 + 8 + int.from_bytes(req[12:16], 'big')          # end of the request header
+                head = [v for v in vs if int(v[0].split('@')[1].split(':')[0]) < hdr_end]
+                rest = [v for v in vs if v not in head]
+                rng.shuffle(rest)
+                for label, byts in head + rest[:per_base]:
+                    scen.append((bname + ' ' + label, byts))
+            rng.shuffle(scen)
+            scen.append(('ordinary create', sessdrv.encode_request(
+                eng.build([kdrv.create(A.AES, 128, (M.ENCRYPT,))], version=version), version)))
+            for _ in scen:
+                proxy.faults.append(None)
+            obs, conn = sessdrv.run_spec(proxy, sessdrv.default_spec(b''.join(b for _, b in scen), ts=ts), dumps=False)
+            frames = obs['frames']
+            if len(frames) != len(scen):
+                ctx.violation({'path': 'noncanonical', 'problem': 'answers != requests'},
+                              {'version': version, 'requests': [x[0] for x in scen], 'frames': len(frames)},
+                              '%d requests on one connection got %d answers' % (len(scen), len(frames)))
+            for (name, byts), fr in zip(scen, frames):
+                n += 1
+                kind = name.split(':')[-1]
+                kinds[kind] = kinds.get(kind, 0) + 1
+                ctx.count('noncanonical.%s' % kind)
+                sent = b''.join(fr['sent'])
+                ctx.case_seen(('noncanonical', version, name), nontrivial=True)
+                probs, summ = (['no response was sent'], None) if not sent else ttlvparse.envelope_problems(sent, None)
+                if summ and summ['items'] and summ['items'][0][0] == 0:
+                    accepted += 1
+                for pr in probs:
+                    bad += 1
+                    ctx.violation({'path': 'noncanonical', 'variant': kind, 'problem': pr.split(' (')[0][:60]},
+                                  {'version': version, 'request_variant': name, 'request': byts.hex(), 'response': sent.hex()},
+                                  'KmipSession answer to a non-canonical KMIP %d.%d request (%s) is not a conformant response: %s'
+                                  % (version[0], version[1], name, pr))
+        finally:
+            eng.close()
+    ctx.cov['noncanonical_requests'] = {'requests': n, 'accepted_by_the_server': accepted, 'variants': dict(sorted(kinds.items()))}
+    ctx.log('non-canonical requests: %d answers of the real KmipSession parsed (%d problems, %d requests accepted)' % (n, bad, accepted))
+
+
 _run_prims = run
 
 
@@ -436,6 +548,7 @@ def run(ctx):
                         'every class writes schema-generated and harvested objects and the output is parsed by the independent parser.')
     struct_emission(ctx)
     session_envelope(ctx)
+    noncanonical_requests(ctx)
     ctx.cov['rule'] += (' Envelope: seeded random request histories (~70% successes, every error class reachable by the workload, '
                         'request-level errors) on the real engine; every response is encoded and parsed by an independent TTLV '
                         'parser; distinct = distinct (operation, status, reason, message).  The same rule is checked on what the real KmipSession '
@@ -463,6 +576,8 @@ def replay(ctx, payload):
         struct_emission(ctx)
     elif sig.get('path') == 'session':
         session_envelope(ctx)
+    elif sig.get('path') == 'noncanonical':
+        noncanonical_requests(ctx)
     elif 'path' in sig:
         envelope_run(ctx, 400 if ctx.tier == 'quick' else 4000)
     else:
